@@ -42,6 +42,22 @@ func cases(tier string, seed int64) []eng.Case {
 			if r.N(3) == 0 {
 				pb = []int{61}
 			}
+			if (i/9)%2 == 1 {
+				// small Q primes with 61-bit auxiliary primes and 6..8 digits: the overflow margin of P (2^64/p ~ 8)
+				// is much smaller than the one of Q, so the P rows need their own, more frequent, reductions
+				qb = qb[:0]
+				nq := 12 + r.N(5)
+				for j := 0; j < nq; j++ {
+					qb = append(qb, eng.Pick(r, 36, 36, 40, 45))
+				}
+				pb = []int{61, 61}
+				if r.N(3) == 0 {
+					pb = []int{61, 61, 61}
+					for j := 0; j < 6; j++ {
+						qb = append(qb, 36)
+					}
+				}
+			}
 		case 0: // 32-bit fast path, prime just below 2^29 or smaller
 			qb = []int{eng.Pick(r, 29, 29, 28, 27, 25, 20)}
 			if r.N(3) == 0 {
